@@ -76,9 +76,73 @@ func collectIdxOps(p *Prog, fd *ast.FuncDecl, fiParam types.Object, pathParam ty
 
 // boundField resolves e (rooted at a bound variable) to the field of the index / of the file index it denotes.
 func boundField(info *types.Info, env map[types.Object]idxBind, e ast.Expr, want string) (string, bool) {
+	return boundFieldP(nil, info, env, e, want, 0)
+}
+
+func boundFieldP(p *Prog, info *types.Info, env map[types.Object]idxBind, e ast.Expr, want string, depth int) (string, bool) {
 	e = ast.Unparen(e)
 	for {
 		switch x := e.(type) {
+		case *ast.CallExpr:
+			// a conversion to a named map/slice type keeps the location
+			if tv, ok := info.Types[x.Fun]; ok && tv.IsType() && len(x.Args) == 1 {
+				e = ast.Unparen(x.Args[0])
+				continue
+			}
+			// an accessor of the module: every return statement yields (a part of) one field of the bound variable
+			if p == nil || depth > 2 {
+				return "", false
+			}
+			o, ok := calleeOf(info, x).(*types.Func)
+			if !ok {
+				return "", false
+			}
+			decl := p.declOf[o]
+			if decl == nil || decl.Body == nil {
+				return "", false
+			}
+			dinfo := p.InfoFor(decl)
+			sub := map[types.Object]idxBind{}
+			if se, ok := ast.Unparen(x.Fun).(*ast.SelectorExpr); ok && decl.Recv != nil {
+				if id, ok := ast.Unparen(se.X).(*ast.Ident); ok {
+					if b, ok := env[info.Uses[id]]; ok {
+						if r := recvObj(dinfo, decl); r != nil {
+							sub[r] = b
+						}
+					}
+				}
+			}
+			// locals of the accessor defined from a field of the bound variable
+			ast.Inspect(decl.Body, func(n ast.Node) bool {
+				if as, ok := n.(*ast.AssignStmt); ok && as.Tok == token.DEFINE && len(as.Lhs) >= 1 && len(as.Rhs) == 1 {
+					if id, ok := as.Lhs[0].(*ast.Ident); ok {
+						if f, ok := boundFieldP(p, dinfo, sub, as.Rhs[0], want, depth+1); ok {
+							sub[dinfo.Defs[id]] = idxBind{Kind: want + "Field", Name: f}
+						}
+					}
+				}
+				return true
+			})
+			field, n := "", 0
+			consistent := true
+			ast.Inspect(decl.Body, func(n2 ast.Node) bool {
+				if _, isLit := n2.(*ast.FuncLit); isLit {
+					return false
+				}
+				if r, ok := n2.(*ast.ReturnStmt); ok && len(r.Results) == 1 {
+					n++
+					f, ok := boundFieldP(p, dinfo, sub, r.Results[0], want, depth+1)
+					if !ok || (field != "" && f != field) {
+						consistent = false
+					}
+					field = f
+				}
+				return true
+			})
+			if n > 0 && consistent && field != "" {
+				return field, true
+			}
+			return "", false
 		case *ast.SelectorExpr:
 			if id, ok := ast.Unparen(x.X).(*ast.Ident); ok {
 				if b, ok := env[info.Uses[id]]; ok && b.Kind == want {
@@ -112,18 +176,31 @@ func collectIdxOpsEnv(p *Prog, fd *ast.FuncDecl, env map[types.Object]idxBind, s
 		id, ok := ast.Unparen(e).(*ast.Ident)
 		return ok && env[info.Uses[id]].Kind == "path"
 	}
-	recvField := func(e ast.Expr) (string, bool) { return boundField(info, env, e, "recv") }
+	recvField := func(e ast.Expr) (string, bool) { return boundFieldP(p, info, env, e, "recv", 0) }
 	visit = func(n ast.Node, src string) {
 		ast.Inspect(n, func(x ast.Node) bool {
 			switch s := x.(type) {
 			case *ast.RangeStmt:
 				// range fi.F, or range over a parameter bound to fi.F; nested ranges over the loop's own values keep the source
-				if f, ok := boundField(info, env, s.X, "fi"); ok {
+				if f, ok := boundFieldP(p, info, env, s.X, "fi", 0); ok {
 					visit(s.Body, f)
 					return false
 				}
 				return true
 			case *ast.AssignStmt:
+				if s.Tok == token.DEFINE && len(s.Lhs) == 1 && len(s.Rhs) == 1 {
+					// a local alias of (a part of) a field of the index: `dates := usageCounts(idx.dateCounts)`
+					if id, ok := s.Lhs[0].(*ast.Ident); ok {
+						if t := info.TypeOf(s.Rhs[0]); t != nil {
+							switch t.Underlying().(type) {
+							case *types.Map, *types.Slice, *types.Pointer:
+								if f, ok := recvField(s.Rhs[0]); ok {
+									env[info.Defs[id]] = idxBind{Kind: "recvField", Name: f}
+								}
+							}
+						}
+					}
+				}
 				for i, lhs := range s.Lhs {
 					dst, ok := recvField(lhs)
 					if !ok {
@@ -151,6 +228,21 @@ func collectIdxOpsEnv(p *Prog, fd *ast.FuncDecl, env map[types.Object]idxBind, s
 							}
 							if fn == "make" {
 								record(src, dst, "init", s.Pos(), s)
+								continue
+							}
+						}
+						// `if v == nil { v = make(...); m[k] = v }`: lazy initialisation of the slot
+						if id, ok := ast.Unparen(rhs).(*ast.Ident); ok && madeInSameBlock(info, fd, s, info.Uses[id]) {
+							record(src, dst, "init", s.Pos(), s)
+							continue
+						}
+						// `m[k] = m[k] - n` (possibly through a local: `if rest := m[k] - n; rest > 0 { m[k] = rest }`)
+						if key != nil {
+							if op := arithOnSlot(info, fd, rhs, func(e ast.Expr) bool {
+								f, ok := recvField(e)
+								return ok && f == dst
+							}); op != "" {
+								record(src, dst, op, s.Pos(), s)
 								continue
 							}
 						}
@@ -211,6 +303,12 @@ func collectIdxOpsEnv(p *Prog, fd *ast.FuncDecl, env map[types.Object]idxBind, s
 								touches = touches || b.Kind == "recv" || b.Kind == "recvField"
 							}
 						}
+					} else if f, ok := boundFieldP(p, info, env, se.X, "recv", 0); ok {
+						// a method of a named map/slice type called on (a conversion / an accessor of) a field of the index
+						if r := recvObj(dinfo, decl); r != nil {
+							sub[r] = idxBind{Kind: "recvField", Name: f}
+							touches = true
+						}
 					}
 				}
 				i := 0
@@ -224,12 +322,12 @@ func collectIdxOpsEnv(p *Prog, fd *ast.FuncDecl, env map[types.Object]idxBind, s
 										sub[dinfo.Defs[nm]] = b
 										touches = touches || b.Kind == "recv" || b.Kind == "recvField"
 									}
-								} else if f, ok := boundField(info, env, arg, "recv"); ok {
+								} else if f, ok := boundFieldP(p, info, env, arg, "recv", 0); ok {
 									if _, isBasic := dinfo.Defs[nm].Type().Underlying().(*types.Basic); !isBasic {
 										sub[dinfo.Defs[nm]] = idxBind{Kind: "recvField", Name: f}
 										touches = true
 									}
-								} else if f, ok := boundField(info, env, arg, "fi"); ok {
+								} else if f, ok := boundFieldP(p, info, env, arg, "fi", 0); ok {
 									sub[dinfo.Defs[nm]] = idxBind{Kind: "fiField", Name: f}
 								}
 							}
@@ -939,4 +1037,76 @@ func resolveSingleDef(p *Prog, info *types.Info, e ast.Expr) ast.Expr {
 		return def
 	}
 	return e
+}
+
+// arithOnSlot: rhs is `slot - x` / `slot + x` (directly or as the single definition of a local variable): "dec" /
+// "inc"; "" otherwise.
+func arithOnSlot(info *types.Info, fd *ast.FuncDecl, rhs ast.Expr, isSlot func(ast.Expr) bool) string {
+	rhs = ast.Unparen(rhs)
+	if id, ok := rhs.(*ast.Ident); ok {
+		v := info.Uses[id]
+		var def ast.Expr
+		n := 0
+		ast.Inspect(fd.Body, func(x ast.Node) bool {
+			if as, ok := x.(*ast.AssignStmt); ok && len(as.Lhs) == len(as.Rhs) {
+				for i, l := range as.Lhs {
+					if lid, ok := l.(*ast.Ident); ok && (info.Defs[lid] == v || info.Uses[lid] == v) && v != nil {
+						n++
+						def = as.Rhs[i]
+					}
+				}
+			}
+			return true
+		})
+		if n != 1 || def == nil {
+			return ""
+		}
+		rhs = ast.Unparen(def)
+	}
+	be, ok := rhs.(*ast.BinaryExpr)
+	if !ok {
+		return ""
+	}
+	if _, isIdx := ast.Unparen(be.X).(*ast.IndexExpr); !isIdx || !isSlot(be.X) {
+		return ""
+	}
+	switch be.Op {
+	case token.SUB:
+		return "dec"
+	case token.ADD:
+		return "inc"
+	}
+	return ""
+}
+
+// madeInSameBlock: the statement list that contains store also contains, before it, `v = make(...)`.
+func madeInSameBlock(info *types.Info, fd *ast.FuncDecl, store ast.Stmt, v types.Object) bool {
+	if v == nil {
+		return false
+	}
+	found := false
+	ast.Inspect(fd.Body, func(x ast.Node) bool {
+		blk, ok := x.(*ast.BlockStmt)
+		if !ok {
+			return true
+		}
+		for i, st := range blk.List {
+			if st != store {
+				continue
+			}
+			for _, prev := range blk.List[:i] {
+				as, ok := prev.(*ast.AssignStmt)
+				if !ok || len(as.Lhs) != 1 || len(as.Rhs) != 1 {
+					continue
+				}
+				if id, ok := as.Lhs[0].(*ast.Ident); ok && (info.Uses[id] == v || info.Defs[id] == v) {
+					if call, ok := ast.Unparen(as.Rhs[0]).(*ast.CallExpr); ok && identOf(call.Fun).Name == "make" {
+						found = true
+					}
+				}
+			}
+		}
+		return true
+	})
+	return found
 }
